@@ -217,6 +217,6 @@ def run(ctx):
         R.oracle(key, ok, dict(input=key[:300], case=enc.case_repr(r["case"]), expected="every block read back from the symbol is an RS codeword",
                                observed=r["spec"][:100]), tag="P3:" + r["case"]["tag"])
     log(f"P3 done: {len(R.violations)} violations")
-    R.unproved.append("minimum distance e+1 (hence floor(e/2) correctable codewords) is the textbook BCH-bound corollary of the root "
-                      "property; not mechanised")
+    R.assumptions.append("minimum distance e+1 and unique decoding within floor(e/2) are proved (C02_distance, C02_unique_decoding); "
+                      "an actual decoder is not part of the library")
     return R.out()
